@@ -4,9 +4,69 @@ import json, subprocess, os
 
 CHECKS = {
  "C01": dict(cat="model_checking", design="§5 C01",
-   technique="bounded exhaustive enumeration (closed material classes + legal-move trees) of the real generator/make/undo in lock-step with an independent mailbox rules model; set comparison",
-   text="Every valid position of all 3-man and selected 4-man material classes (all placements x side x rights x en-passant targets) and every node of the depth-2/3 legal-move trees below 233 roots (as played, as reloaded from FEN, with FIDE-style ep FEN) has its engine playable set compared, as a set and for duplicates, with the legal moves of an independent reference model that is itself validated against 664 published perft counts.",
+   technique="bounded exhaustive enumeration (closed material classes, legal-move trees, long reversible lines) of the real generator/make/undo in lock-step with an independent mailbox rules model; set comparison",
+   text="Every valid position of all 3-man and seed-selected 4-man material classes (all placements x side x rights x en-passant targets) and every node of the legal-move trees below 233 roots (as played, as reloaded from FEN, with FIDE-style ep FEN), plus long reversible lines, has its engine playable set compared, as a set and for duplicates, with the legal moves of an independent reference model that is itself validated against 664 published perft counts.",
    note="Trusted: refchess (validated against published perft numbers in setup and in lock-step on every transition); small-scope hypothesis for geometries needing more than 4 men outside the root trees."),
+ "C02": dict(cat="model_checking", design="§5 C02",
+   technique="bounded exhaustive enumeration of (position, legal move) pairs and move chains on the real MakeMove and through a real uci.Driver, lock-step with the reference model; complete en-passant family",
+   text="Every (position, legal move) of the classes, every chain of the trees below the root corpus (API, and depth<=2 through `position fen .. moves ..`/`fen` on a real driver), the complete en-passant family (double push x 0-2 capturers x both kings x one extra man anywhere, both colours) and long reversible lines: engine FEN after the move must equal the reference successor with the ep field present iff a legal ep capture exists.",
+   note="Trusted: refchess. Known finding recorded: half-move clock wraps at 128 (int8)."),
+ "C03": dict(cat="model_checking", design="§5 C03",
+   technique="explicit-state DFS over the real MakeMove/MakeNullMove/Undo with deep-snapshot comparison at every nesting level",
+   text="At every node of the trees (plus half-move-clock variants) and of every class position, every generated pseudo-legal move (legal or not) and the null move is made, nested below legal ones, undone, and a deep snapshot (three placement encodings, side, rights, ep, counters, whole hash history) compared; long lines are made and unwound completely.",
+   note="Snapshot through the verif hook board.VerifSnapshotInto."),
+ "C04": dict(cat="model_checking", design="§5 C04",
+   technique="explicit-state DFS with state matching: from-scratch hash and representation consistency after every make; reference-key table as transposition oracle",
+   text="DFS over legal moves and null moves (up to two in a row) below the root corpus and all 3-man positions: after every make the incremental hash equals the from-scratch hash, the three placement encodings agree square by square, and a reference key reached again by another path must carry the hash first recorded.",
+   note="From-scratch hash through hook VerifCalcHash; Zobrist collisions between different keys are counted, not judged. Known finding recorded: FEN-loaded root with non-capturable ep target."),
+ "C05": dict(cat="model_checking", design="§5 C05",
+   technique="complete enumeration of all 32768 move encodings per position against the generator, over tree nodes and closed classes",
+   text="For every position (tree nodes as played and with FIDE-style ep FEN, a full 3-man class, the rights/ep-bearing positions of 4-man classes) ALL 2^15 encodings go through IsPseudoLegal and are compared with membership in the generated list; the GUI move gate is probed through a real driver.",
+   note="none beyond the position universes"),
+ "C09": dict(cat="model_checking", design="§5 C09",
+   technique="exhaustive enumeration of material classes (3-man all, 4-man selected, constrained 5-man) and tree nodes; oracle = reference legal-move existence",
+   text="IsCheckmate (only in check) and IsStalemate (only out of check) are compared with the reference's has-legal-move on every position of the classes with engine-normalised ep state and on every tree node.",
+   note="Trusted: refchess."),
+ "C10": dict(cat="model_checking", design="§5 C10",
+   technique="exhaustive enumeration of all move sequences up to a length over small move alphabets (DFS on the real make/undo), reference key history as oracle; also through a real uci.Driver",
+   text="All histories up to length 14-21 over small alphabets from 10 shuffle roots (oscillations, lost castling rights, transient ep rights, raw/capturable FEN targets, irreversible moves): after every step Threefold() must equal min(3, occurrences of the reference key).",
+   note="Known finding recorded: root FEN with non-capturable ep target."),
+ "C11": dict(cat="model_checking", design="§5 C11",
+   technique="exhaustive enumeration of positions/canonical texts (round trip) and of enumerated byte strings (all short strings, all single-byte edits of base FENs) through every parser entry point and a real driver",
+   text="Round trip over all class positions with rotating counters and all tree nodes (FromFEN and ParseFEN into a re-used board); every promotion-reachable piece-count vector through InvalidPieceCount and `position fen`; all strings <=5 over a FEN alphabet and every 1-byte substitution/deletion/insertion/truncation/field-count/digit-run variant of 12 base FENs through FromFEN, ParseFEN, epd.Parse and `position fen` (board unchanged when rejected, no panic).",
+   note="Known finding recorded: FEN of positions reached by play with clock > 100 is rejected on reload."),
+ "C12": dict(cat="model_checking", design="§5 C12",
+   technique="complete enumeration of the finite space (every square x every subset of the full ray set, all leaper squares, all 64x64 pairs) against coordinate-walking geometry",
+   text="The whole space: 64 squares x every subset of the full rook/bishop ray sets (also with off-ray squares set: masking obligation), king/knight/pawn helpers for every square, colour and rank pattern, InBetween for all pairs; exhaustive:true.",
+   note="Oracle written independently of the engine's table fill."),
+ "C14": dict(cat="model_checking", design="§5 C14",
+   technique="complete grid enumeration of clock states plus boundary-value products through the driver's own limit computation",
+   text="uci.VerifLimits over the full grid time x increment x colour (movetime on the small corner), all pairs of boundary values up to 10^12 / 10^9 and the clamp break points; hard>0, hard<=clock, margin kept, movetime exact, independence from the opponent's clock.",
+   note="Beyond the grid: piecewise linearity between enumerated break points (stated, not proved). Hook uci.VerifLimits."),
+ "C15": dict(cat="model_checking", design="§5 C15, App. C",
+   technique="explicit-state BFS over store/clear/resize sequences on the real table with digest de-duplication, lock-step with a reference model (ttmodel); complete products for re-basing, two-store interaction, overflow, lane matching",
+   text="BFS over operation sequences (10 colliding keys x 8 boundary parameter sets, Clear, Resize+Clear) with all keys probed at three plies after every operation against ttmodel; complete products: every value x store ply x probe ply, all depth pairs x types x generations x moves, bucket overflow patterns, lane matching over all 2^16 keys.",
+   note="Bucket index asked of the implementation (hook); both readings accepted for the exact boundary value; sig-0 keys not judged."),
+ "C16": dict(cat="model_checking", design="§5 C16",
+   technique="exhaustive product positions x hash moves x ranker states on the real picker; reachability fix-point over all stored values x all 65536 bonuses of the real history updates",
+   text="Picker run to exhaustion for tree nodes and rights/ep-bearing class positions x hash move in {0, every generated move, 64 foreign encodings; all 32768 on selected roots} x ranker states built by real FailHigh calls x stack depths: yielded multiset == generated set, hash first, weights in band; fix-point of reachable history values under every int16 bonus stays within +-MaxHistory for all three tables.",
+   note="none"),
+ "C17": dict(cat="model_checking", design="§5 C17",
+   technique="exhaustive enumeration of classes, tree nodes and a pawn-structure family, each paired with mirror and non-positional variants",
+   text="Eval(P)==Eval(mirror P), == variant without rights/ep, == other full-move number, == same position with hash history, == second evaluation; over 3-man + evaluation-rich 4-man classes, tree nodes, 4-pawn structure family; subset through the UCI eval command.",
+   note="none"),
+ "C18": dict(cat="model_checking", design="§5 C18",
+   technique="exhaustive enumeration of (position, legal move, threshold) with a plain-recursion capture minimax over all tie-break choices as reference",
+   text="Every legal move of every tree node, of the ep-bearing class positions and of the exchange families (capture/quiet/en-passant set-ups, every assignment of up to 4-5 men to slots two deep on the rays of the target) x thresholds straddling every achievable balance: SEE true if min balance>=t, false if max<t, monotone.",
+   note="Reference refchess.SEEValues."),
+ "C19": dict(cat="model_checking", design="§5 C19",
+   technique="exhaustive enumeration of positions (float vs integer evaluation envelope) and of coefficient-group subsets (vector mapping with every coefficient holding its ordinal)",
+   text="|float eval - white-relative int eval| < 2.25 over classes (clock rotating 0..100), tree nodes, promoted-material boards, loaded with ParseFEN as the tuner does; ToVector/SetVector/TunedParams faithful for subsets of the 17 groups against an independent reflection walk.",
+   note="Built against /repo/tools/tuner via replace directive."),
+ "C20": dict(cat="model_checking", design="§5 C20",
+   technique="exhaustive enumeration over n, seeds, layouts, sub-ranges and read-buffer alignments (overlay builds with small buffers)",
+   text="feistel bijective for every width x 24 seeds; shuffleIndex a permutation for EVERY n up to the bound; Batches/Chunks partitions for every n/length; files of every line count in 6 layouts read as whole epochs and all sub-ranges; a 40 MiB file with the real buffer; the same family with the buffer overlaid to 64/257/4096 bytes.",
+   note="Epochs beyond the enumerated seeds rest on the epoch only seeding round keys."),
 }
 
 PENDING = {
